@@ -209,7 +209,7 @@ func c07Labels(typ string, b *opBuild) []string {
 	}
 	if typ != "create" {
 		l = append(l, "cfg-sig-alg-not-allowed", "cfg-key-curve-not-allowed", "req-alg-missing", "req-alg-empty", "req-extra-header", "req-key-missing-member",
-			"req-reveal-other-key", "req-missing-did-suffix", "req-missing-signed-data", "req-nonce-undecodable", "req-key-rsa", "req-key-unknown-kty")
+			"req-reveal-other-key", "req-reveal-respelled", "req-reveal-shortened", "req-header-duplicate-member", "req-missing-did-suffix", "req-missing-signed-data", "req-nonce-undecodable", "req-key-rsa", "req-key-unknown-kty")
 		if b.SignKey.Nonce != "" {
 			l = append(l, "cfg-nonce-size-off-by-one")
 		}
@@ -418,6 +418,9 @@ func TestC07_ParserAcceptsExactly(t *testing.T) {
 		case "req-reveal-other-key":
 			m.Reveal = otherKey(t, m.SignKey).Reveal(alg)
 			m.assemble()
+		case "req-reveal-respelled", "req-reveal-shortened", "req-header-duplicate-member":
+			m.assemble()
+			tamperSigned(t, m, strings.TrimPrefix(label, "req-"), q)
 		case "req-missing-did-suffix":
 			m.assemble()
 			delete(m.Req, "didSuffix")
